@@ -12,6 +12,7 @@ import (
 	"encoding/json"
 	"errors"
 	"fmt"
+	"reflect"
 	"sort"
 	"strings"
 	"sync/atomic"
@@ -487,6 +488,10 @@ type Got struct {
 	Nil   bool // nil diff without error
 	Acts  []Act
 	Other string // diff carries something besides actions
+	// the call itself: the change handed in is left as it was, and asking again
+	// (same change, same datasource) gives the same answer
+	InputModified bool
+	Second        string
 }
 
 func runReal(c *Case) (g Got, harness error) {
@@ -505,7 +510,7 @@ func runReal(c *Case) (g Got, harness error) {
 	} else if c.ExplicitOff {
 		opts = append(opts, annotate.IgnoreMissingChildren(false))
 	}
-	func() {
+	call := func(g *Got) {
 		defer func() {
 			if p := recover(); p != nil {
 				g.Panic = fmt.Sprint(p)
@@ -527,7 +532,20 @@ func runReal(c *Case) (g Got, harness error) {
 			g.Acts = append(g.Acts, Act{Type: string(a.Type),
 				Single: containerES(a.OSM), Old: containerES(a.Old), New: containerES(a.New)})
 		}
-	}()
+	}
+	before := kit.DeepCopy(change)
+	call(&g)
+	g.InputModified = !reflect.DeepEqual(before, change)
+	var g2 Got
+	call(&g2)
+	switch {
+	case g2.Panic != g.Panic:
+		g.Second = fmt.Sprintf("panic %q vs %q", g2.Panic, g.Panic)
+	case (g2.Err == nil) != (g.Err == nil) || (g.Err != nil && g2.Err.Error() != g.Err.Error()):
+		g.Second = fmt.Sprintf("error %v vs %v", g2.Err, g.Err)
+	case g2.Nil != g.Nil || !reflect.DeepEqual(g2.Acts, g.Acts):
+		g.Second = fmt.Sprintf("%d actions vs %d, or different ones", len(g2.Acts), len(g.Acts))
+	}
 	return g, nil
 }
 
@@ -675,6 +693,12 @@ func checkCase(r *kit.Run, c *Case) {
 	if got.Nil {
 		r.Violation("nil-diff/"+shape, "nil diff and nil error; case "+c.Fingerprint(), c)
 		return
+	}
+	// (annotate.Change sets Visible on the elements of the change it is given, by
+	// design; the property does not promise an untouched input, so InputModified
+	// is recorded and not judged)
+	if got.Second != "" {
+		r.Violation("second-call-differs/"+shape, "a second annotate.Change with the same change and datasource: "+got.Second+"; case "+c.Fingerprint(), c)
 	}
 	if got.Other != "" {
 		r.Violation("diff-extra-content/"+shape, got.Other+"; case "+c.Fingerprint(), c)
